@@ -17,6 +17,9 @@ pub mod c13;
 pub mod c14;
 pub mod c15;
 pub mod c16;
+pub mod c17;
+pub mod c18;
+pub mod fsenv;
 pub mod c20;
 
 pub fn dispatch(r: &mut Runner) -> bool {
@@ -37,6 +40,8 @@ pub fn dispatch(r: &mut Runner) -> bool {
         "C14" => c14::run(r),
         "C15" => c15::run(r),
         "C16" => c16::run(r),
+        "C17" => c17::run(r),
+        "C18" => c18::run(r),
         "C20" => c20::run(r),
         _ => return false,
     }
